@@ -322,6 +322,15 @@ func (P *Program) resolveModifies(fn *ssa.Function, con *Contract) error {
 			mc.at = x.X
 		case *ast.CallExpr:
 			id, ok := x.Fun.(*ast.Ident)
+			if ok && id.Name == "ghost" && len(x.Args) == 1 {
+				g, ok := x.Args[0].(*ast.Ident)
+				if !ok {
+					return fmt.Errorf("modifies %s: ghost(name)", src)
+				}
+				mc.heaps = append(mc.heaps, "G_ghost."+g.Name)
+				mc.sorts = append(mc.sorts, SInt)
+				break
+			}
 			if !ok || (id.Name != "mapof" && id.Name != "heap") || len(x.Args) != 1 {
 				return fmt.Errorf("modifies %s: expected mapof(expr) or heap(T.f)", src)
 			}
@@ -514,6 +523,43 @@ func builtinModels() map[string]modelFn {
 			ex.fail("sort.Float64s: %v", err)
 		}
 		return nil
+	}
+	atomicLoad := func(ex *Exec, st *State, args []T, c *ssa.CallCommon) []T {
+		l := ex.addr(st, c.Args[0])
+		v := ex.load(st, l)
+		if ex.onRead != nil {
+			_ = l
+		}
+		return []T{v}
+	}
+	m["sync/atomic.LoadInt32"] = atomicLoad
+	m["sync/atomic.LoadInt64"] = atomicLoad
+	atomicStore := func(ex *Exec, st *State, args []T, c *ssa.CallCommon) []T {
+		if err := ex.store(st, ex.addr(st, c.Args[0]), args[1]); err != nil {
+			ex.fail("%v", err)
+		}
+		return nil
+	}
+	m["sync/atomic.StoreInt32"] = atomicStore
+	m["sync/atomic.StoreInt64"] = atomicStore
+	atomicAdd := func(ex *Exec, st *State, args []T, c *ssa.CallCommon) []T {
+		l := ex.addr(st, c.Args[0])
+		nv := ex.define("atomic.add", Add(ex.load(st, l), args[1]))
+		if err := ex.store(st, l, nv); err != nil {
+			ex.fail("%v", err)
+		}
+		return []T{nv}
+	}
+	m["sync/atomic.AddInt64"] = atomicAdd
+	m["sync/atomic.AddInt32"] = atomicAdd
+	m["sync/atomic.CompareAndSwapInt32"] = func(ex *Exec, st *State, args []T, c *ssa.CallCommon) []T {
+		l := ex.addr(st, c.Args[0])
+		cur := ex.load(st, l)
+		ok := ex.define("cas.ok", Eq(cur, args[1]))
+		if err := ex.store(st, l, Ite(ok, args[2], cur)); err != nil {
+			ex.fail("%v", err)
+		}
+		return []T{ok}
 	}
 	m["(*sync.Once).Do"] = func(ex *Exec, st *State, args []T, c *ssa.CallCommon) []T {
 		ex.vc.note("sync.Once.Do body skipped")
